@@ -4,6 +4,7 @@ Used by the history (C03), setter (C08), covariance (C09) and side-effect (C16) 
 The observable alphabet is enumerated from ``dir(type(shape))`` so that new public
 members are picked up automatically.
 """
+import copy
 import functools
 import inspect
 
@@ -88,18 +89,18 @@ def probe_points(V, radius=0.0):
     return np.vstack(pts), size
 
 
-def observe(shape, with_queries=True, skip=()):
-    """name -> raw value (or Raised) for every public property plus standard queries."""
-    out = {}
+def readers(shape, with_queries=True, skip=()):
+    """List of (name, fn(shape) -> value): every public property plus the standard queries."""
     cls = type(shape)
+    out = []
     for name in public_properties(cls):
         if name in skip or name in DEPRECATED:
             continue
-        out[name] = _convert(call(getattr, shape, name))
+        out.append((name, (lambda s, n=name: _convert(call(getattr, s, n)))))
     if not with_queries:
         return out
+    out.append(("repr", lambda s: call(repr, s)))
     V = call(getattr, shape, "vertices") if hasattr(cls, "vertices") else None
-    out["repr"] = call(repr, shape)
     if V is not None and not isinstance(V, Raised):
         rad = 0.0
         if hasattr(shape, "radius"):
@@ -107,20 +108,25 @@ def observe(shape, with_queries=True, skip=()):
             rad = float(r_) if not isinstance(r_, Raised) else 0.0
         P, size = probe_points(V, rad)
         if not isinstance(shape, S.ConvexSpheropolygon):
-            out["is_inside"] = call(shape.is_inside, P.copy())
+            out.append(("is_inside", lambda s: call(s.is_inside, P.copy())))
         if hasattr(shape, "get_face_area"):
-            out["get_face_area"] = call(shape.get_face_area)
-            nb = call(getattr, shape, "neighbors")
-            if not isinstance(nb, Raised) and len(nb) and len(nb[0]):
-                out["dihedral"] = call(shape.get_dihedral, 0, int(nb[0][0]))
+            out.append(("get_face_area", lambda s: call(s.get_face_area)))
+
+            def dihedral(s):
+                nb = call(getattr, s, "neighbors")
+                if not isinstance(nb, Raised) and len(nb) and len(nb[0]):
+                    return call(s.get_dihedral, 0, int(nb[0][0]))
+                return None
+
+            out.append(("dihedral", dihedral))
         q = np.array([[0.0, 0, 0], [0.3, -0.2, 0.5], [1.1, 0.7, -0.4], [-2.0, 0.1, 0.9]]) / max(size, 1e-300)
         if not isinstance(shape, (S.ConvexSpheropolygon, S.ConvexSpheropolyhedron)):
-            out["form_factor"] = call(shape.compute_form_factor_amplitude, q.copy())
+            out.append(("form_factor", lambda s: call(s.compute_form_factor_amplitude, q.copy())))
         if isinstance(shape, (S.ConvexPolygon, S.ConvexSpheropolygon)):
             V_ = np.asarray(V)
             if np.all(V_[:, 2] == 0):
                 ang = np.array([0.0, 0.4, 1.3, 2.2, 3.3, 4.1, 5.2, 6.0])
-                out["distance_to_surface"] = call(shape.distance_to_surface, ang.copy())
+                out.append(("distance_to_surface", lambda s: call(s.distance_to_surface, ang.copy())))
     else:
         c = np.asarray(shape.centroid, dtype=float)
         ax = [getattr(shape, k) for k in ("a", "b", "c") if hasattr(shape, k)] or [shape.radius]
@@ -128,12 +134,27 @@ def observe(shape, with_queries=True, skip=()):
         d = np.array([[0.2, 0.1, 0], [0.9, 0.2, 0], [-0.5, 0.8, 0], [1.2, 0, 0], [0, -1.4, 0], [0.3, 0.3, 0.3], [0.0, 0.0, 1.1]]) * m
         if not is3d(shape):
             d = d[:5]
-        out["is_inside"] = call(shape.is_inside, c + d)
+        out.append(("is_inside", lambda s: call(s.is_inside, c + d)))
         if hasattr(shape, "distance_to_surface") and not is3d(shape):
-            out["distance_to_surface"] = call(shape.distance_to_surface, np.array([0.0, 0.4, 1.3, 2.2, 3.3, 4.1, 5.2, 6.0]))
+            out.append(("distance_to_surface", lambda s: call(s.distance_to_surface, np.array([0.0, 0.4, 1.3, 2.2, 3.3, 4.1, 5.2, 6.0]))))
         if isinstance(shape, S.Sphere):
             q = np.array([[0.0, 0, 0], [0.3, -0.2, 0.5], [1.1, 0.7, -0.4]]) / m
-            out["form_factor"] = call(shape.compute_form_factor_amplitude, q)
+            out.append(("form_factor", lambda s: call(s.compute_form_factor_amplitude, q)))
+    return out
+
+
+def observe(shape, with_queries=True, skip=(), isolated=False):
+    """name -> raw value (or Raised) for every public property plus standard queries.
+
+    With ``isolated=True`` every observable is read from its own deep copy of the shape, so that one
+    read cannot refresh (and thereby hide) a stale value that another read would have returned."""
+    out = {}
+    for name, fn in readers(shape, with_queries, skip):
+        target = copy.deepcopy(shape) if isolated else shape
+        v = fn(target)
+        if v is None and name == "dihedral":
+            continue
+        out[name] = v
     return out
 
 
